@@ -11,6 +11,7 @@ import (
 	"strconv"
 	"strings"
 	"time"
+	"verif/h/langx"
 
 	"verif/h/core"
 	"verif/report"
@@ -52,6 +53,8 @@ func main() {
 	}
 	if *deadline > 0 {
 		c.Deadline = time.Now().Add(*deadline)
+		// flat enumerators stop at the internal deadline too (reported as not exhaustive)
+		langx.Stop = c.Expired
 	}
 	if *replay != "" {
 		b, err := os.ReadFile(*replay)
